@@ -56,7 +56,15 @@ impl Subject for SOrswot {
     }
     fn edit(s: &St, actor: Option<u8>, e: EditArgs, _aux: &mut Aux) -> Option<(Self::Op, Sem, String)> {
         let m = idx(e.a, MEMBERS) as u8;
-        let kind = set_edit_kind(e.kind, actor.is_some());
+        let mut kind = set_edit_kind(e.kind, actor.is_some());
+        // removing something absent is legal but mostly idle: usually turn it into an add
+        if actor.is_some() && e.d % 4 != 0 {
+            if kind == 2 && !s.contains(&m).val {
+                kind = 0;
+            } else if kind == 3 && s.read().val.is_empty() {
+                kind = 1;
+            }
+        }
         let (op, call) = match kind {
             0 => {
                 let a = actor?;
@@ -92,6 +100,20 @@ impl Subject for SOrswot {
         let call = format!("{call} -> {op:?}");
         Some((op, sem, call))
     }
+    fn edit_stale_rm(s: &St, old: &St, e: EditArgs) -> Option<(Self::Op, Sem, String)> {
+        let m = idx(e.a, MEMBERS) as u8;
+        let (op, call) = if idx(e.kind, 4) < 3 {
+            (s.rm(m, old.contains(&m).derive_rm_ctx()), format!("rm({m}) ctx from an EARLIER contains({m}) at this replica"))
+        } else {
+            let r = old.read();
+            let mut ms: Vec<u8> = r.val.iter().copied().collect();
+            ms.sort();
+            (s.rm_all(ms.clone(), r.derive_rm_ctx()), format!("rm_all({ms:?}) ctx from an EARLIER read() at this replica"))
+        };
+        let sem = sem_of(&op);
+        let call = format!("{call} -> {op:?}");
+        Some((op, sem, call))
+    }
     fn observe(s: &St) -> Obs {
         observe_set(s, MEMBERS)
     }
@@ -100,10 +122,10 @@ impl Subject for SOrswot {
         Some(dotstore::predict_set(&ds, &[], MEMBERS, &ds.clock()))
     }
     fn validate_op(s: &St, op: &Self::Op) -> Result<(), String> {
-        s.validate_op(op).map_err(|e| format!("{e:?}"))
+        s.validate_op(op).map_err(|e| render_dot_range(&e))
     }
     fn validate_merge(a: &St, b: &St) -> Result<(), String> {
-        a.validate_merge(b).map_err(|e| format!("{e:?}"))
+        a.validate_merge(b).map_err(|e| render_set_merge_err(&e))
     }
     fn ctx_probes(s: &St, actors: &[u8]) -> Vec<CtxProbe> {
         set_ctx_probes(s, actors, MEMBERS)
@@ -230,4 +252,10 @@ pub fn nested_set_value(s: &St) -> Value {
     let mut members: Vec<u8> = s.read().val.into_iter().collect();
     members.sort();
     json!(members)
+}
+
+pub fn render_set_merge_err(e: &crdts::orswot::Validation<u8, u8>) -> String {
+    match e {
+        crdts::orswot::Validation::DoubleSpentDot { dot, our_member, their_member } => format!("DoubleSpentDot {{ dot: ({}, {}), our_member: {our_member}, their_member: {their_member} }}", dot.actor, dot.counter),
+    }
 }
